@@ -641,6 +641,11 @@ func (gen *Generator) GenerateCallBySymbol(sym *SexpSymbol, args []Sexp, orig Se
 	case "defn":
 		return gen.GenerateDefn(args, orig)
 	case "begin":
+		if len(args) == 0 {
+			// an empty (begin) is still an expression: its value is nil
+			gen.AddInstruction(PushInstr{SexpNull})
+			return nil
+		}
 		return gen.GenerateBegin(args)
 	case "let":
 		return gen.GenerateLet("let", args)
@@ -1518,8 +1523,9 @@ func (gen *Generator) GenerateNewScope(expressions []Sexp) error {
 	oldtail := gen.Tail
 	gen.Tail = false
 	if size == 0 {
+		// an empty (newScope) is still an expression: its value is nil
+		gen.AddInstruction(PushInstr{SexpNull})
 		return nil
-		//return NoExpressionsFound
 	}
 
 	gen.AddInstruction(AddScopeInstr{Name: "newScope"})
